@@ -119,6 +119,13 @@ func Plan(out string, seed uint64, tier string, scenario string, count int, epoc
 				pr.ForkBias = "triple"
 			}
 		}
+		if n == "mass_slashing" {
+			pr.RetryUntil = "epochs_proposers_sensitive_to_effbal_change"
+		}
+		// non-power-of-two vector lengths: one fixed quick chain, every fourth thorough chain
+		if quick && n == "eth1_votes" || !quick && i%4 == 2 && n != "mass_slashing" {
+			pr.OddVectors = true
+		}
 		if quick && scenario == "" {
 			switch i {
 			case 0:
@@ -142,7 +149,7 @@ func Plan(out string, seed uint64, tier string, scenario string, count int, epoc
 		for k := 0; k < 3; k++ {
 			r := master.Fork()
 			plan = append(plan, ChainParams{Scenario: Scenarios["genesis"], Dir: ChainDir(out, "genesis", k), Name: fmt.Sprintf("genesis-%d", k),
-				Seed: seed, Rng: r, Epochs: 8, Plain: k == 0, Genesis: ng, GenesisOnly: true})
+				Seed: seed, Rng: r, Epochs: 8, Plain: k == 0, Genesis: ng, GenesisOnly: true, OddVectors: k == 1})
 		}
 	}
 	return plan
